@@ -137,6 +137,11 @@ class DirectSimulation(BaseSimulation):
     def _run(self, n_runs: int):
         """Run assuming perfect measurement."""
 
+        # A previous run may have been interrupted while a trial was being
+        # recorded: keep only the trials that were recorded completely.
+        for key in ['effective_error', 'success', 'codespace']:
+            del self._results[key][self._results['n_runs']:]
+
         for i_run in range(n_runs):
             shot = run_once(
                 self.code, self.error_model, self.decoder,
